@@ -85,202 +85,207 @@ def run(eng, R):
                  "%s [%s]: %s - code: %s   expected: %s" % (f.qualname, "ndim == %s" % n if n is not None else "any other ndim", what, got[:160], want[:160]))
 
     # ---- inverse pair: compose the *extracted* expressions, branch by branch
-    def branch_for(brs, n):
-        for k, excl, e, _ in brs:
-            if k == n:
-                return e
-        for k, excl, e, _ in brs:
-            if k is None and n not in excl:
-                return e
-        for k, excl, e, _ in brs:
-            if k is None:
-                return e
-        raise AnalysisError("ConfidenceLevel: no conversion branch for ndim=%s" % n)
+    with R.guard("inverse pair: compose the *extracted* expressions, branch by"):
+        def branch_for(brs, n):
+            for k, excl, e, _ in brs:
+                if k == n:
+                    return e
+            for k, excl, e, _ in brs:
+                if k is None and n not in excl:
+                    return e
+            for k, excl, e, _ in brs:
+                if k is None:
+                    return e
+            raise AnalysisError("ConfidenceLevel: no conversion branch for ndim=%s" % n)
 
-    dims = sorted({n for n, _, _, _ in br_cl + br_sg if n is not None}) + [None]
-    for n in dims:
-        e_cl, e_sg = for_dim(branch_for(br_cl, n), n), for_dim(branch_for(br_sg, n), n)
-        s_of_c = Repl("cl", e_cl).visit(copy.deepcopy(e_sg))
-        c_of_s = Repl("sigma", e_sg).visit(copy.deepcopy(e_cl))
-        n1 = Normalizer().norm(s_of_c).simplify().canon()
-        n2 = Normalizer().norm(c_of_s).simplify().canon()
-        tag = "" if n is None else " [n=%s]" % n
-        R.ob("H-inv", "sigma(cl(s)) = s%s" % tag, n1 in ("self.sigma", "(self.sigma^2)^1/2"), (f_sg.file, f_sg.lineno),
-             "sigma_from_cl(cl_from_sigma(s))%s normalises to `%s`, not to s: the conversions are not inverse to each other" % (tag, n1[:200]))
-        R.ob("H-inv", "cl(sigma(c)) = c%s" % tag, n2 == "self.cl", (f_cl.file, f_cl.lineno), "cl_from_sigma(sigma_from_cl(c))%s normalises to `%s`, not to c: the conversions are not inverse to each other" % (tag, n2[:200]))
+        dims = sorted({n for n, _, _, _ in br_cl + br_sg if n is not None}) + [None]
+        for n in dims:
+            e_cl, e_sg = for_dim(branch_for(br_cl, n), n), for_dim(branch_for(br_sg, n), n)
+            s_of_c = Repl("cl", e_cl).visit(copy.deepcopy(e_sg))
+            c_of_s = Repl("sigma", e_sg).visit(copy.deepcopy(e_cl))
+            n1 = Normalizer().norm(s_of_c).simplify().canon()
+            n2 = Normalizer().norm(c_of_s).simplify().canon()
+            tag = "" if n is None else " [n=%s]" % n
+            R.ob("H-inv", "sigma(cl(s)) = s%s" % tag, n1 in ("self.sigma", "(self.sigma^2)^1/2"), (f_sg.file, f_sg.lineno),
+                 "sigma_from_cl(cl_from_sigma(s))%s normalises to `%s`, not to s: the conversions are not inverse to each other" % (tag, n1[:200]))
+            R.ob("H-inv", "cl(sigma(c)) = c%s" % tag, n2 == "self.cl", (f_cl.file, f_cl.lineno), "cl_from_sigma(sigma_from_cl(c))%s normalises to `%s`, not to c: the conversions are not inverse to each other" % (tag, n2[:200]))
 
     # ---- 2-d instance used for iminuit contours
-    im = get_func(p, "MinimizerIMinuit", "contour")
-    # what is handed to the backend as `cl=` (through a local or directly; path-sensitive, so a helper written out or a temporary is read through)
-    from ..termform import path_exprs
+    with R.guard("2d instance used for iminuit contours"):
+        im = get_func(p, "MinimizerIMinuit", "contour")
+        # what is handed to the backend as `cl=` (through a local or directly; path-sensitive, so a helper written out or a temporary is read through)
+        from ..termform import path_exprs
 
-    def _cl_args(st):
-        own = [st] if not hasattr(st, "body") else [x for x in (getattr(st, "test", None), getattr(st, "iter", None)) if x is not None]
-        return [k.value for o in own for c in ast.walk(o) if isinstance(c, ast.Call) and isinstance(c.func, ast.Attribute) and c.func.attr == "mncontour" for k in c.keywords if k.arg == "cl"]
+        def _cl_args(st):
+            own = [st] if not hasattr(st, "body") else [x for x in (getattr(st, "test", None), getattr(st, "iter", None)) if x is not None]
+            return [k.value for o in own for c in ast.walk(o) if isinstance(c, ast.Call) and isinstance(c.func, ast.Attribute) and c.func.attr == "mncontour" for k in c.keywords if k.arg == "cl"]
 
-    forms = path_exprs(im.node, _cl_args)
-    if not forms:
-        raise AnalysisError("MinimizerIMinuit.contour: no confidence level (`cl=`) is handed to mncontour")
-    two = Repl("sigma", ast.Name(id="sigma", ctx=ast.Load())).visit(for_dim(branch_for(br_cl, 2), 2))
-    want = Normalizer().norm(two).simplify()
-    for conds, e, env in forms:
-        ee = subst(e, env)
-        # going through the class is the same thing: ConfidenceLevel(n_dimensions=2, sigma=sigma).cl
-        if isinstance(ee, ast.Attribute) and ee.attr == "cl" and isinstance(ee.value, ast.Call) and isinstance(ee.value.func, ast.Name) and ee.value.func.id == "ConfidenceLevel":
-            kws = {k.arg: k.value for k in ee.value.keywords}
-            nd = kws.get("n_dimensions", ee.value.args[0] if ee.value.args else None)
-            okc = isinstance(nd, ast.Constant) and nd.value == 2 and "sigma" in kws and ast.unparse(kws["sigma"]) == "sigma"
-            R.ob("H-2d", "MinimizerIMinuit.contour:_cl", okc, (im.file, e.lineno), "the contour confidence level must be the two-dimensional level of `sigma` (found %s)" % ast.unparse(ee))
-            continue
-        got = Normalizer().norm(ee).simplify()
-        R.ob("H-2d", "MinimizerIMinuit.contour:_cl", got == want, (im.file, e.lineno),
-             "the contour confidence level is `%s`; the two-dimensional conversion gives `%s`" % (got.canon(), want.canon()))
-    # the cl is what is handed to the backend
-    mc = [c for c in ast.walk(im.node) if isinstance(c, ast.Call) and isinstance(c.func, ast.Attribute) and c.func.attr == "mncontour" and any(k.arg == "cl" for k in c.keywords)]
-    ok = len(mc) == 1 and [ast.unparse(a) for a in mc[0].args] == ["parameter_name_1", "parameter_name_2"]
-    R.ob("H-2d", "MinimizerIMinuit.contour:use", ok, (im.file, im.lineno), "the 2-d confidence level must be passed to mncontour for the two requested parameters")
+        forms = path_exprs(im.node, _cl_args)
+        if not forms:
+            raise AnalysisError("MinimizerIMinuit.contour: no confidence level (`cl=`) is handed to mncontour")
+        two = Repl("sigma", ast.Name(id="sigma", ctx=ast.Load())).visit(for_dim(branch_for(br_cl, 2), 2))
+        want = Normalizer().norm(two).simplify()
+        for conds, e, env in forms:
+            ee = subst(e, env)
+            # going through the class is the same thing: ConfidenceLevel(n_dimensions=2, sigma=sigma).cl
+            if isinstance(ee, ast.Attribute) and ee.attr == "cl" and isinstance(ee.value, ast.Call) and isinstance(ee.value.func, ast.Name) and ee.value.func.id == "ConfidenceLevel":
+                kws = {k.arg: k.value for k in ee.value.keywords}
+                nd = kws.get("n_dimensions", ee.value.args[0] if ee.value.args else None)
+                okc = isinstance(nd, ast.Constant) and nd.value == 2 and "sigma" in kws and ast.unparse(kws["sigma"]) == "sigma"
+                R.ob("H-2d", "MinimizerIMinuit.contour:_cl", okc, (im.file, e.lineno), "the contour confidence level must be the two-dimensional level of `sigma` (found %s)" % ast.unparse(ee))
+                continue
+            got = Normalizer().norm(ee).simplify()
+            R.ob("H-2d", "MinimizerIMinuit.contour:_cl", got == want, (im.file, e.lineno),
+                 "the contour confidence level is `%s`; the two-dimensional conversion gives `%s`" % (got.canon(), want.canon()))
+        # the cl is what is handed to the backend
+        mc = [c for c in ast.walk(im.node) if isinstance(c, ast.Call) and isinstance(c.func, ast.Attribute) and c.func.attr == "mncontour" and any(k.arg == "cl" for k in c.keywords)]
+        ok = len(mc) == 1 and [ast.unparse(a) for a in mc[0].args] == ["parameter_name_1", "parameter_name_2"]
+        R.ob("H-2d", "MinimizerIMinuit.contour:use", ok, (im.file, im.lineno), "the 2-d confidence level must be passed to mncontour for the two requested parameters")
 
     # ---- setters / getters
-    for prop, other, lo_excl in (("cl", "_sigma", True), ("sigma", "_cl", False)):
-        fs = CL.find_prop(prop).fset
-        g = eng.cfg(fs)
+    with R.guard("setters / getters"):
+        for prop, other, lo_excl in (("cl", "_sigma", True), ("sigma", "_cl", False)):
+            fs = CL.find_prop(prop).fset
+            g = eng.cfg(fs)
 
-        def clears(n, other=other):
-            st = n.stmt
-            return n.kind == "stmt" and isinstance(st, ast.Assign) and any(self_attr(t) == other for t in st.targets) and isinstance(st.value, ast.Constant) and st.value.value is None
+            def clears(n, other=other):
+                st = n.stmt
+                return n.kind == "stmt" and isinstance(st, ast.Assign) and any(self_attr(t) == other for t in st.targets) and isinstance(st.value, ast.Constant) and st.value.value is None
 
-        ok, _ = g.all_paths_pass(g.entry.id, clears)
-        R.ob("S-inval", "ConfidenceLevel.%s.fset:clears %s" % (prop, other), ok, (fs.file, fs.lineno), "setting %s does not clear the cached %s: the two representations disagree afterwards" % (prop, other))
-        fg = CL.find_prop(prop).fget
-        src = ast.unparse(fg.node)
-        calc = "_calc_cl_from_sigma" if prop == "cl" else "_calc_sigma_from_cl"
-        oprop = "sigma" if prop == "cl" else "cl"
-        lazy = [i for i in ast.walk(fg.node) if isinstance(i, ast.If) and " ".join(ast.unparse(i.test).split()) == "self._%s is None" % prop]
-        fills = [a for i in lazy for a in ast.walk(i) if isinstance(a, ast.Assign) and any(self_attr(t) == "_" + prop for t in a.targets)
-                 and (calc in ast.unparse(a.value) or any(self_attr(x) == oprop for x in ast.walk(a.value)))]   # through the conversion helper, or the helper written out
-        R.ob("S-inval", "ConfidenceLevel.%s.fget:lazy" % prop, len(lazy) == 1 and len(fills) >= 1 and len(fills) == len([a for a in ast.walk(fg.node) if isinstance(a, ast.Assign) and any(self_attr(t) == "_" + prop for t in a.targets)])
-             and ("return self._%s" % prop) in src, (fg.file, fg.lineno),
-             "%s getter must recompute from the other representation exactly when its own cache is empty" % prop)
-    dn = CL.find_prop("delta_nll").fset
-    R.ob("S-inval", "ConfidenceLevel.delta_nll.fset", "self.sigma = np.sqrt(new_delta_nll)" in ast.unparse(dn.node) or "self.sigma = sqrt(new_delta_nll)" in ast.unparse(dn.node), (dn.file, dn.lineno),
-         "setting delta_nll must set sigma = sqrt(delta_nll)")
-    ini = CL.find_method("__init__")
-    src = ast.unparse(ini.node)
-    R.ob("S-inval", "ConfidenceLevel.__init__:delta_nll", "self.sigma = np.sqrt(delta_nll)" in src, (ini.file, ini.lineno), "constructing from delta_nll must set sigma = sqrt(delta_nll)")
+            ok, _ = g.all_paths_pass(g.entry.id, clears)
+            R.ob("S-inval", "ConfidenceLevel.%s.fset:clears %s" % (prop, other), ok, (fs.file, fs.lineno), "setting %s does not clear the cached %s: the two representations disagree afterwards" % (prop, other))
+            fg = CL.find_prop(prop).fget
+            src = ast.unparse(fg.node)
+            calc = "_calc_cl_from_sigma" if prop == "cl" else "_calc_sigma_from_cl"
+            oprop = "sigma" if prop == "cl" else "cl"
+            lazy = [i for i in ast.walk(fg.node) if isinstance(i, ast.If) and " ".join(ast.unparse(i.test).split()) == "self._%s is None" % prop]
+            fills = [a for i in lazy for a in ast.walk(i) if isinstance(a, ast.Assign) and any(self_attr(t) == "_" + prop for t in a.targets)
+                     and (calc in ast.unparse(a.value) or any(self_attr(x) == oprop for x in ast.walk(a.value)))]   # through the conversion helper, or the helper written out
+            R.ob("S-inval", "ConfidenceLevel.%s.fget:lazy" % prop, len(lazy) == 1 and len(fills) >= 1 and len(fills) == len([a for a in ast.walk(fg.node) if isinstance(a, ast.Assign) and any(self_attr(t) == "_" + prop for t in a.targets)])
+                 and ("return self._%s" % prop) in src, (fg.file, fg.lineno),
+                 "%s getter must recompute from the other representation exactly when its own cache is empty" % prop)
+        dn = CL.find_prop("delta_nll").fset
+        R.ob("S-inval", "ConfidenceLevel.delta_nll.fset", "self.sigma = np.sqrt(new_delta_nll)" in ast.unparse(dn.node) or "self.sigma = sqrt(new_delta_nll)" in ast.unparse(dn.node), (dn.file, dn.lineno),
+             "setting delta_nll must set sigma = sqrt(delta_nll)")
+        ini = CL.find_method("__init__")
+        src = ast.unparse(ini.node)
+        R.ob("S-inval", "ConfidenceLevel.__init__:delta_nll", "self.sigma = np.sqrt(delta_nll)" in src, (ini.file, ini.lineno), "constructing from delta_nll must set sigma = sqrt(delta_nll)")
 
     # ---- call-site dimension
-    for f in p.all_functions():
-        for c in ast.walk(f.node):
-            if isinstance(c, ast.Call) and isinstance(c.func, ast.Name) and c.func.id == "ConfidenceLevel" and f.cls is not CL:
-                nd = next((k.value for k in c.keywords if k.arg == "n_dimensions"), c.args[0] if c.args else None)
-                dim = nd.value if isinstance(nd, ast.Constant) else (1 if nd is None else "?")
-                ctx_txt = f.qualname.lower() + " " + " ".join(ast.unparse(common.enclosing_stmt(f.node, c)).split()).lower()
-                stmt_txt = " ".join(ast.unparse(common.enclosing_stmt(f.node, c)).split()).lower()
-                is_contour = "contour" in stmt_txt or ("contour" in f.name.lower() and "profile" not in f.name.lower())
-                want_dim = 2 if is_contour else 1
-                R.ob("S-dim", "%s:%s" % (f.qualname, " ".join(ast.unparse(c).split())[:50]), dim == want_dim, (f.file, c.lineno),
-                     "%s constructs a %s-dimensional ConfidenceLevel in a %s context" % (f.qualname, dim, "contour (two parameters)" if is_contour else "profile / interval (one parameter)"))
+    with R.guard("callsite dimension"):
+        for f in p.all_functions():
+            for c in ast.walk(f.node):
+                if isinstance(c, ast.Call) and isinstance(c.func, ast.Name) and c.func.id == "ConfidenceLevel" and f.cls is not CL:
+                    nd = next((k.value for k in c.keywords if k.arg == "n_dimensions"), c.args[0] if c.args else None)
+                    dim = nd.value if isinstance(nd, ast.Constant) else (1 if nd is None else "?")
+                    ctx_txt = f.qualname.lower() + " " + " ".join(ast.unparse(common.enclosing_stmt(f.node, c)).split()).lower()
+                    stmt_txt = " ".join(ast.unparse(common.enclosing_stmt(f.node, c)).split()).lower()
+                    is_contour = "contour" in stmt_txt or ("contour" in f.name.lower() and "profile" not in f.name.lower())
+                    want_dim = 2 if is_contour else 1
+                    R.ob("S-dim", "%s:%s" % (f.qualname, " ".join(ast.unparse(c).split())[:50]), dim == want_dim, (f.file, c.lineno),
+                         "%s constructs a %s-dimensional ConfidenceLevel in a %s context" % (f.qualname, dim, "contour (two parameters)" if is_contour else "profile / interval (one parameter)"))
 
     # ---- one-sided vs central conversion in the arrow computation: path-sensitive evaluation over the None-ness of (low, high, cl) and arrows
-    from ..pathval import NONE, NOTNONE, Evaluator
+    with R.guard("onesided vs central conversion in the arrow computation: pat"):
+        from ..pathval import NONE, NOTNONE, Evaluator
 
-    MB = p.find_class("MinimizerBase")
-    ga = get_func(p, "MinimizerBase", "_get_arrow_specs")
-    helpers = {name for name, m in MB.all_methods().items() if hasattr(m, "node") and name != "_get_arrow_specs" and "ConfidenceLevel" in ast.unparse(m.node) and len(m.node.body) <= 8}
-    results = {}  # (side, case, what) -> [ok, message of the first failure, where]
-    n_events = 0
-    bound_results = {}
-    for low0 in (NONE, NOTNONE):
-        for high0 in (NONE, NOTNONE):
-            for cl0 in (NONE, NOTNONE):
-              for sub0 in (True, False):
-                for arrows0 in (True, False):
-                    ev = Evaluator(MB, event_calls={"append"}, inline=helpers | {"_get_cost_value"})
-                    ev.run(ga.node, {"low": low0, "high": high0, "cl": cl0, "arrows": arrows0, "subtract_min": sub0})
-                    # arrows at user-supplied bounds: the tail is that of the cost *rise* at the bound, whatever offset the plot uses
-                    for call, facts, env, trail in ev.events:
-                        bl = [t for t, pol in trail if isinstance(t, ast.For) and isinstance(t.iter, ast.Name) and t.iter.id in ("low", "high")]
-                        if not bl or not (isinstance(call.func.value, ast.Name) and "arrow" in call.func.value.id) or not call.args or not isinstance(call.args[0], ast.Dict):
-                            continue
-                        d = call.args[0]
-                        items = {common.const_str(k): v for k, v in zip(d.keys, d.values)}
-                        side = common.const_str(items.get("side"))
-                        clx = ev.close(items["cl"], facts, env)
-                        cls_ = [c for c in ast.walk(clx) if isinstance(c, ast.Call) and isinstance(c.func, ast.Name) and c.func.id == "ConfidenceLevel"]
-                        if len(cls_) != 1:
-                            raise AnalysisError("_get_arrow_specs: tail probability of a bound arrow is not derived from one ConfidenceLevel")
-                        dn = next((k.value for k in cls_[0].keywords if k.arg == "delta_nll"), None)
-                        got_d = Normalizer().norm(dn).simplify().canon() if dn is not None else "?"
-                        want_d = norm_spec("self.function_value - min_cost").canon()
-                        tail = Normalizer().norm(clx).simplify().canon()
-                        want_tail = norm_spec("(1 - X) / 2").canon().replace("X", "(" + Normalizer().norm(cls_[0]).canon() + ").cl")
-                        r = bound_results.setdefault((side, "delta"), [True, "", call.lineno])
-                        if got_d != want_d and r[0]:
-                            r[0] = False
-                            r[1] = "arrow at a given %s bound [subtract_min=%s]: the tail probability is computed from delta_nll = %s, expected the cost rise at the bound, %s" % (
-                                "lower" if side == "left" else "upper", sub0, got_d, want_d)
-                        yv = Normalizer().norm(ev.close(items["y"], facts, env)).simplify().canon()
-                        want_y = norm_spec("self.function_value - min_cost").canon() if sub0 else "self.function_value"
-                        r = bound_results.setdefault((side, "y"), [True, "", call.lineno])
-                        if yv != want_y and r[0]:
-                            r[0] = False
-                            r[1] = "arrow at a given bound [subtract_min=%s]: plotted at y = %s, expected %s" % (sub0, yv, want_y)
-                    state_txt = "low %s, high %s, cl %s, arrows=%s" % ("given" if low0 == NOTNONE else "None", "given" if high0 == NOTNONE else "None", "given" if cl0 == NOTNONE else "None", arrows0)
-                    for call, facts, env, trail in ev.events:
-                        loops = [t for t, pol in trail if isinstance(t, ast.For) and isinstance(t.iter, ast.Name) and t.iter.id == "cl"]
-                        if not loops or not (isinstance(call.func.value, ast.Name) and "arrow" in call.func.value.id) or not call.args or not isinstance(call.args[0], ast.Dict):
-                            continue
-                        tv = loops[-1].target.id
-                        d = call.args[0]
-                        items = {common.const_str(k): v for k, v in zip(d.keys, d.values)}
-                        side = common.const_str(items.get("side"))
-                        if side not in ("left", "right") or "cl" not in items or "y" not in items:
-                            raise AnalysisError("_get_arrow_specs: arrow spec without side / cl / y")
-                        n_events += 1
-                        other_given = (high0 if side == "left" else low0) == NOTNONE
-                        case = "one-sided" if other_given else "central"
-                        tail = Normalizer().norm(ev.close(items["cl"], facts, env)).canon()
-                        yexp = ev.close(items["y"], facts, env)
-                        sig_calls = [c for c in ast.walk(yexp) if isinstance(c, ast.Call) and isinstance(c.func, ast.Name) and c.func.id == "ConfidenceLevel"]
-                        if not sig_calls:
-                            raise AnalysisError("_get_arrow_specs: sigma of an arrow is not derived from a ConfidenceLevel (directly or through a helper of MinimizerBase)")
-                        clarg = next((k.value for k in sig_calls[0].keywords if k.arg == "cl"), None)
-                        conv = Normalizer().norm(clarg).canon() if clarg is not None else "?"
-                        central = tail == norm_spec("(1 - %s) / 2" % tv).canon() and conv == tv
-                        onesided = tail == norm_spec("1 - %s" % tv).canon() and conv == norm_spec("2 * %s - 1" % tv).canon()
-                        ok = onesided if other_given else central
-                        r = results.setdefault((side, case, "conversion"), [True, "", call.lineno])
-                        if not ok and r[0]:
-                            r[0] = False
-                            r[1] = "arrow on the %s side [%s]: displayed tail probability %s with sigma converted from cl=%s - expected %s" % (
-                                side, state_txt, tail, conv, "tail 1-cl and sigma(2cl-1) (one-sided bound)" if other_given else "tail (1-cl)/2 and sigma(cl) (central interval)")
-                        tgt_call = [c for c in ast.walk(items["x"]) if isinstance(c, ast.Call) and isinstance(c.func, ast.Attribute) and c.func.attr == "_find_cost_cut"] if "x" in items else []
-                        tc = next((common.kwarg(c, "target_cost", 2) for c in tgt_call if common.kwarg(c, "target_cost", 2) is not None), None)  # _find_cost_cut(name, guess, target_cost, ...)
-                        tnorm = Normalizer().norm(ev.close(tc, facts, env)).canon() if tc is not None else "?"
-                        sig = Normalizer().norm(ast.parse("ConfidenceLevel(cl=%s).sigma" % ast.unparse(clarg), mode="eval").body).canon() if clarg is not None else "?"
-                        want_t = "min_cost + %s^2" % sig
-                        r = results.setdefault((side, case, "target"), [True, "", call.lineno])
-                        if not _same_sum(tnorm, want_t) and r[0]:
-                            r[0] = False
-                            r[1] = "[%s] the arrow position is searched at cost %s, expected minimum + sigma^2 (%s)" % (state_txt, tnorm, want_t)
-    for (side, case, what), (ok, msg, line) in sorted(results.items()):
-        R.ob("S-side", "_get_arrow_specs:%s:%s%s" % (side, case, "" if what == "conversion" else ":target"), ok, (ga.file, line),
-             msg or "%s arrow, %s: tail probability and converted level agree" % (side, case))
-    for (side, what), (ok, msg, line) in sorted(bound_results.items()):
-        R.ob("S-side", "_get_arrow_specs:bound:%s:%s" % (side, what), ok, (ga.file, line), msg or "%s bound arrow: %s consistent" % (side, what))
-    if len(bound_results) < 4:
-        raise AnalysisError("_get_arrow_specs: arrows at user-supplied bounds not found (%s)" % sorted(bound_results))
-    if len(results) < 8:
-        raise AnalysisError("_get_arrow_specs: expected left/right x central/one-sided arrows from confidence levels, found %s" % sorted(results))
+        MB = p.find_class("MinimizerBase")
+        ga = get_func(p, "MinimizerBase", "_get_arrow_specs")
+        helpers = {name for name, m in MB.all_methods().items() if hasattr(m, "node") and name != "_get_arrow_specs" and "ConfidenceLevel" in ast.unparse(m.node) and len(m.node.body) <= 8}
+        results = {}  # (side, case, what) -> [ok, message of the first failure, where]
+        n_events = 0
+        bound_results = {}
+        for low0 in (NONE, NOTNONE):
+            for high0 in (NONE, NOTNONE):
+                for cl0 in (NONE, NOTNONE):
+                  for sub0 in (True, False):
+                    for arrows0 in (True, False):
+                        ev = Evaluator(MB, event_calls={"append"}, inline=helpers | {"_get_cost_value"})
+                        ev.run(ga.node, {"low": low0, "high": high0, "cl": cl0, "arrows": arrows0, "subtract_min": sub0})
+                        # arrows at user-supplied bounds: the tail is that of the cost *rise* at the bound, whatever offset the plot uses
+                        for call, facts, env, trail in ev.events:
+                            bl = [t for t, pol in trail if isinstance(t, ast.For) and isinstance(t.iter, ast.Name) and t.iter.id in ("low", "high")]
+                            if not bl or not (isinstance(call.func.value, ast.Name) and "arrow" in call.func.value.id) or not call.args or not isinstance(call.args[0], ast.Dict):
+                                continue
+                            d = call.args[0]
+                            items = {common.const_str(k): v for k, v in zip(d.keys, d.values)}
+                            side = common.const_str(items.get("side"))
+                            clx = ev.close(items["cl"], facts, env)
+                            cls_ = [c for c in ast.walk(clx) if isinstance(c, ast.Call) and isinstance(c.func, ast.Name) and c.func.id == "ConfidenceLevel"]
+                            if len(cls_) != 1:
+                                raise AnalysisError("_get_arrow_specs: tail probability of a bound arrow is not derived from one ConfidenceLevel")
+                            dn = next((k.value for k in cls_[0].keywords if k.arg == "delta_nll"), None)
+                            got_d = Normalizer().norm(dn).simplify().canon() if dn is not None else "?"
+                            want_d = norm_spec("self.function_value - min_cost").canon()
+                            tail = Normalizer().norm(clx).simplify().canon()
+                            want_tail = norm_spec("(1 - X) / 2").canon().replace("X", "(" + Normalizer().norm(cls_[0]).canon() + ").cl")
+                            r = bound_results.setdefault((side, "delta"), [True, "", call.lineno])
+                            if got_d != want_d and r[0]:
+                                r[0] = False
+                                r[1] = "arrow at a given %s bound [subtract_min=%s]: the tail probability is computed from delta_nll = %s, expected the cost rise at the bound, %s" % (
+                                    "lower" if side == "left" else "upper", sub0, got_d, want_d)
+                            yv = Normalizer().norm(ev.close(items["y"], facts, env)).simplify().canon()
+                            want_y = norm_spec("self.function_value - min_cost").canon() if sub0 else "self.function_value"
+                            r = bound_results.setdefault((side, "y"), [True, "", call.lineno])
+                            if yv != want_y and r[0]:
+                                r[0] = False
+                                r[1] = "arrow at a given bound [subtract_min=%s]: plotted at y = %s, expected %s" % (sub0, yv, want_y)
+                        state_txt = "low %s, high %s, cl %s, arrows=%s" % ("given" if low0 == NOTNONE else "None", "given" if high0 == NOTNONE else "None", "given" if cl0 == NOTNONE else "None", arrows0)
+                        for call, facts, env, trail in ev.events:
+                            loops = [t for t, pol in trail if isinstance(t, ast.For) and isinstance(t.iter, ast.Name) and t.iter.id == "cl"]
+                            if not loops or not (isinstance(call.func.value, ast.Name) and "arrow" in call.func.value.id) or not call.args or not isinstance(call.args[0], ast.Dict):
+                                continue
+                            tv = loops[-1].target.id
+                            d = call.args[0]
+                            items = {common.const_str(k): v for k, v in zip(d.keys, d.values)}
+                            side = common.const_str(items.get("side"))
+                            if side not in ("left", "right") or "cl" not in items or "y" not in items:
+                                raise AnalysisError("_get_arrow_specs: arrow spec without side / cl / y")
+                            n_events += 1
+                            other_given = (high0 if side == "left" else low0) == NOTNONE
+                            case = "one-sided" if other_given else "central"
+                            tail = Normalizer().norm(ev.close(items["cl"], facts, env)).canon()
+                            yexp = ev.close(items["y"], facts, env)
+                            sig_calls = [c for c in ast.walk(yexp) if isinstance(c, ast.Call) and isinstance(c.func, ast.Name) and c.func.id == "ConfidenceLevel"]
+                            if not sig_calls:
+                                raise AnalysisError("_get_arrow_specs: sigma of an arrow is not derived from a ConfidenceLevel (directly or through a helper of MinimizerBase)")
+                            clarg = next((k.value for k in sig_calls[0].keywords if k.arg == "cl"), None)
+                            conv = Normalizer().norm(clarg).canon() if clarg is not None else "?"
+                            central = tail == norm_spec("(1 - %s) / 2" % tv).canon() and conv == tv
+                            onesided = tail == norm_spec("1 - %s" % tv).canon() and conv == norm_spec("2 * %s - 1" % tv).canon()
+                            ok = onesided if other_given else central
+                            r = results.setdefault((side, case, "conversion"), [True, "", call.lineno])
+                            if not ok and r[0]:
+                                r[0] = False
+                                r[1] = "arrow on the %s side [%s]: displayed tail probability %s with sigma converted from cl=%s - expected %s" % (
+                                    side, state_txt, tail, conv, "tail 1-cl and sigma(2cl-1) (one-sided bound)" if other_given else "tail (1-cl)/2 and sigma(cl) (central interval)")
+                            tgt_call = [c for c in ast.walk(items["x"]) if isinstance(c, ast.Call) and isinstance(c.func, ast.Attribute) and c.func.attr == "_find_cost_cut"] if "x" in items else []
+                            tc = next((common.kwarg(c, "target_cost", 2) for c in tgt_call if common.kwarg(c, "target_cost", 2) is not None), None)  # _find_cost_cut(name, guess, target_cost, ...)
+                            tnorm = Normalizer().norm(ev.close(tc, facts, env)).canon() if tc is not None else "?"
+                            sig = Normalizer().norm(ast.parse("ConfidenceLevel(cl=%s).sigma" % ast.unparse(clarg), mode="eval").body).canon() if clarg is not None else "?"
+                            want_t = "min_cost + %s^2" % sig
+                            r = results.setdefault((side, case, "target"), [True, "", call.lineno])
+                            if not _same_sum(tnorm, want_t) and r[0]:
+                                r[0] = False
+                                r[1] = "[%s] the arrow position is searched at cost %s, expected minimum + sigma^2 (%s)" % (state_txt, tnorm, want_t)
+        for (side, case, what), (ok, msg, line) in sorted(results.items()):
+            R.ob("S-side", "_get_arrow_specs:%s:%s%s" % (side, case, "" if what == "conversion" else ":target"), ok, (ga.file, line),
+                 msg or "%s arrow, %s: tail probability and converted level agree" % (side, case))
+        for (side, what), (ok, msg, line) in sorted(bound_results.items()):
+            R.ob("S-side", "_get_arrow_specs:bound:%s:%s" % (side, what), ok, (ga.file, line), msg or "%s bound arrow: %s consistent" % (side, what))
+        if len(bound_results) < 4:
+            raise AnalysisError("_get_arrow_specs: arrows at user-supplied bounds not found (%s)" % sorted(bound_results))
+        if len(results) < 8:
+            raise AnalysisError("_get_arrow_specs: expected left/right x central/one-sided arrows from confidence levels, found %s" % sorted(results))
 
     # ---- F1 along the profile / contour call chain
-    pairs = []
-    for cn in ("ContoursProfiler", "NexusFitter", "MinimizerBase", "MinimizerIMinuit", "MinimizerScipyOptimize"):
-        c = p.find_class(cn)
-        for f in cache.visible_functions(c):
-            pairs.append((c, f))
-    check_arg_slots(eng, R, "F1", pairs)
-
+    with R.guard("F1 along the profile / contour call chain"):
+        pairs = []
+        for cn in ("ContoursProfiler", "NexusFitter", "MinimizerBase", "MinimizerIMinuit", "MinimizerScipyOptimize"):
+            c = p.find_class(cn)
+            for f in cache.visible_functions(c):
+                pairs.append((c, f))
+        check_arg_slots(eng, R, "F1", pairs)
 
 def _same_sum(a, b):
     return sorted(x.strip() for x in a.split(" + ")) == sorted(x.strip() for x in b.split(" + "))
